@@ -51,3 +51,42 @@ Example C04_nonvacuous :
   tcode (1, 3) (1, 4) = 0 /\ tcode (1, 3) (-1, 2) = -1 /\
   req (ls_scale [(1, 1); (-3, 1)] [1; -1]) (20000000, 10000001) = true.
 Proof. vm_compute. repeat split. Qed.
+
+(* ---- the source itself (coq/gen/BinTernGen.v, regenerated from qkeras/quantizers.py on every run) ---- *)
+From QV Require Import Quant.BinTernSrc Link.BinTernLink.
+From QVGen Require BinTernGen.
+Theorem C04_source_translated : BinTernGen.bt_translation_ok = true.
+Proof. exact link_bt_ok. Qed.
+Print Assumptions C04_source_translated.
+(* the arithmetic binary.__call__ performs on sign(x) yields exactly the model's code, for every input *)
+Theorem C04_source_binary_code : forall u x, req (BinTernGen.gen_bcode u x) (rofZ (bcode u x)) = true.
+Proof. exact gen_bcode_is_bcode. Qed.
+Print Assumptions C04_source_binary_code.
+Theorem C04_source_ternary_code : forall thr x, req (BinTernGen.gen_tcode thr x) (rofZ (tcode thr x)) = true.
+Proof. exact gen_tcode_is_tcode. Qed.
+Print Assumptions C04_source_ternary_code.
+(* data-dependent ternary scale: each refinement step codes x as zero exactly when |x| <= scale/2 (the tie included, because
+   round-half-even sends 1/2 to 0) and with the sign of x otherwise, for every positive scale and every x *)
+Theorem C04_source_ternary_auto_step : forall scale x, 0 < rnum scale -> 0 < rden scale -> 0 < rden x ->
+  req (BinTernGen.gen_tstep scale x) (rofZ (tstep scale x)) = true.
+Proof. exact gen_tstep_is_tstep. Qed.
+Print Assumptions C04_source_ternary_auto_step.
+Theorem C04_ternary_auto_step_zero_exactly_up_to_half_the_scale : forall scale x, 0 < rnum scale -> 0 < rden scale -> 0 < rden x ->
+  (tstep scale x = 0 <-> rle (rabs x) (rdiv scale (2, 1)) = true).
+Proof. exact tstep_zero_iff. Qed.
+Print Assumptions C04_ternary_auto_step_zero_exactly_up_to_half_the_scale.
+Theorem C04_ternary_auto_step_codes : forall scale x,
+  (tstep scale x = -1 \/ tstep scale x = 0 \/ tstep scale x = 1) /\ (tstep scale x <> 0 -> tstep scale x = sgn3 x).
+Proof. intros scale x. split; [apply tstep_values | apply tstep_sign]. Qed.
+Print Assumptions C04_ternary_auto_step_codes.
+(* which tensor the straight-through sum is built around, which scale multiplies the code, where the threshold comes from and
+   which formula the least-squares helper uses -- per kind of alpha, as the source says now *)
+Theorem C04_source_scale_and_surrogate_tables :
+  (forall a, BinTernGen.gen_binary_surrogate a = binary_surrogate a) /\ (forall a, BinTernGen.gen_binary_scale a = binary_scale a) /\
+  (forall a, BinTernGen.gen_ternary_surrogate a = ternary_surrogate a) /\ (forall a, BinTernGen.gen_ternary_scale a = ternary_scale a) /\
+  (forall h, BinTernGen.gen_ternary_thr h = ternary_thr h) /\ (forall a hb, BinTernGen.gen_ls_form a hb = ls_form a hb).
+Proof. exact link_bt_tables. Qed.
+Print Assumptions C04_source_scale_and_surrogate_tables.
+Theorem C04_source_ternary_initial_scale : forall m, BinTernGen.gen_tinit_scale m = tinit_scale m.
+Proof. exact link_tinit. Qed.
+Print Assumptions C04_source_ternary_initial_scale.
